@@ -4,7 +4,7 @@
 P=$1; ID=$2; TIER=${3:-quick}
 cd /repo || exit 2
 if [ -n "$(git status --porcelain --untracked-files=no)" ]; then echo "/repo has uncommitted changes, refusing"; exit 2; fi
-if ! git apply --3way $P 2>/tmp/selftest.apply.err && ! git apply $P 2>>/tmp/selftest.apply.err; then echo "SELFTEST $ID $(basename $(dirname $P))/$(basename $P): patch does not apply: $(tail -1 /tmp/selftest.apply.err)"; git checkout -- . ; git reset -q; exit 3; fi
+if ! git apply --3way $P 2>/tmp/selftest.apply.err && ! git apply $P 2>>/tmp/selftest.apply.err; then echo "SELFTEST $ID $(basename $(dirname $P))/$(basename $P): patch does not apply: $(tail -1 /tmp/selftest.apply.err)"; git reset -q; git checkout -- . ; exit 3; fi
 git reset -q
 cd /verif && VERIF_KEEP= ./run.sh $ID $TIER > /tmp/selftest.$ID.out 2>&1; rc=$?
 git -C /repo checkout -- .
